@@ -230,14 +230,21 @@ def analyse(mod, run, label):
     # narrower than 64 bits wraps for large counts and the "95th percentile" becomes an arbitrary one.
     nz7 = 0
     for aname in ("varintPFORComputeThreshold",):
-        af = need_fn(mod, aname); afi = w.fi(af).prepare()
-        def from_param(o, d=0):
+        af0 = need_fn(mod, aname)
+        def from_param(af, o, d=0):
             if o["k"] == "arg": return True
             if o["k"] != "inst" or d > 4: return False
             x = af.imap[o["v"]]
-            return x.op in ("zext", "sext", "trunc") and from_param(x.ops[0], d + 1)
-        for i in af.insts():
-            if i.op != "mul" or not from_param(i.ops[0]) or not from_param(i.ops[1]): continue
+            return x.op in ("zext", "sext", "trunc") and from_param(af, x.ops[0], d + 1)
+        # the function itself, and file-local helpers it hands (only) its own parameters to (`percentileIndex(count, threshold)`)
+        units7 = [af0]
+        for c7 in af0.calls():
+            h7 = mod.fn(c7.get("callee") or "")
+            if h7 is not None and h7.internal and h7.blocks and h7 not in units7 and c7["nargs"] and all(from_param(af0, c7.ops[k_]) for k_ in range(c7["nargs"])): units7.append(h7)
+        for af in units7:
+          afi = w.fi(af).prepare()
+          for i in af.insts():
+            if i.op != "mul" or not from_param(af, i.ops[0]) or not from_param(af, i.ops[1]): continue
             nz7 += 1
             bits = int(i["t"][1:]) if i["t"][1:].isdigit() else 64
             wraps = bits < 64 and afi.may_wrap(i)
